@@ -1,8 +1,8 @@
 package rules
 
 import (
-	"go/types"
 	"go/token"
+	"go/types"
 
 	"golang.org/x/tools/go/ssa"
 
@@ -329,7 +329,6 @@ func (c *Ctx) callsTransitively(fn *ssa.Function, depth int, match func(*core.Ca
 	return false
 }
 
-
 // funcsDeep lists fn, the function literals defined in it, and — transitively, depth levels — the module's declared
 // functions they call statically (goroutine starts are not followed): the code that runs as part of a call of fn.
 func (c *Ctx) funcsDeep(fn *ssa.Function, depth int) []*ssa.Function {
@@ -386,7 +385,6 @@ func (c *Ctx) callsToDeep(fn *ssa.Function, depth int, objs ...*types.Func) []*c
 	return out
 }
 
-
 // callsToDeepStop is callsToDeep that does not look into the functions for which stop returns true.
 func (c *Ctx) callsToDeepStop(fn *ssa.Function, depth int, stop func(*ssa.Function) bool, objs ...*types.Func) []*core.Call {
 	var out []*core.Call
@@ -399,7 +397,6 @@ func (c *Ctx) callsToDeepStop(fn *ssa.Function, depth int, stop func(*ssa.Functi
 	}
 	return out
 }
-
 
 // liftTo returns the instructions of root through which instr runs: instr itself if it is in root (or in a function
 // literal of root), else the static calls in root whose callee (transitively, depth 3) contains instr's function.
